@@ -67,10 +67,10 @@ def run(ctx):
   ctx.borrow(c11.rule_scalar, "R-C02-VERIFY")
   ctx.borrow(c11.rule_comb, "R-C02-VERIFY")
   MULT = (":EcCurve.Add", ":EcCurve.Double", ":EcCurve.Negate", ":EcCurve.Subtract", ":EcCurve.AffineToJacobian", ":EcCurve.JacobianToAffine",
-          ":EcCurve.AddJacobian", ":EcCurve.DoubleJacobian")
+          ":EcCurve.AddJacobian", ":EcCurve.DoubleJacobian", ":EcCurve.BatchDouble", ":EcCurve.BatchAddList")      # the last two carry the comb
   ctx.borrow(c11.rule_formula, "R-C02-VERIFY", lambda r: r.where.endswith(MULT))
   ctx.borrow(c11.rule_dispatch, "R-C02-VERIFY", lambda r: r.where.endswith(MULT))
-  ctx.expect("R-C02-VERIFY", 22, "scalar multiplication + comb obligations + the group-law formula and special-case rows Multiply is built from")
+  ctx.expect("R-C02-VERIFY", 26, "scalar multiplication + comb obligations + the group-law formula and special-case rows Multiply is built from")
   ctx.expect("R-C02-RELEASE", 5, "three BatchDL stores + two relation strings")
   ctx.expect("R-C02-CODEC", 2, "writer index and reader pair")
   ctx.expect("R-C02-ALIGN", 4, "four Check bodies")
